@@ -99,6 +99,17 @@ def _gen_cases(tier, seed):
                         continue
                     yield dict(i=i, kind="compose", fmt=fmt, cell=cell, time=time, parts=parts)
                     i += 1
+    # long sessions: hundreds of frames through one handle, in many small writes and in writes larger than any internal
+    # chunk / buffer / frames-per-file setting
+    longs = [[1] * 130, [100, 1, 100], [64] * 5, [257], [1, 255, 1], [33, 67, 29, 101]]
+    for k, fmt in enumerate(STREAM):
+        vs = variants(fmt)
+        for parts in (longs if tier == "thorough" else [longs[(k + seed) % len(longs)], longs[(k + seed + 3) % len(longs)]]):
+            if fmt in ("pdb", "gro") and sum(parts) > 200:
+                parts = [max(1, p // 2) for p in parts]
+            cell, time = vs[(k + len(parts)) % len(vs)]
+            yield dict(i=i, kind="compose", fmt=fmt, cell=cell, time=time, parts=parts)
+            i += 1
     for k in range(3):
         yield dict(i=i, kind="temp-path", fmt="dtr", cell=True, time=True, parts=[1, 2], variant=k)
         i += 1
